@@ -62,6 +62,9 @@ def gen_dname(rng, used, auto_bat=False):
             if name.startswith("-"):
                 name = "X" + name[1:]
             ext = rng.choice(DEXTS)
+            if rng.random() < 0.05:
+                # extensions of 4..9 characters (and names of 9): refused with a message, never stored under a cut name
+                ext = rng.choice(["text", "data", "html", "json5", "extensio", "extension", "bas2"])
         arg = name + ("." + ext if ext != "" or rng.random() < 0.5 else "")
         if arg.endswith(".") and ext == "":
             pass
